@@ -89,7 +89,7 @@ UNIT = Unit(
                    "proof { if ctx0.callee_of(name@) is Some && sig_mentions_tparam(ctx0.callee_of(name@)->0) { assert(kept_ok(ctx0.callee_of(name@)->0, new_ty, tt_g)); } }")],
            loop_fn=lambda k, header, kw: VLOOPS(header)),
         Fn(file=M, name="mono_expr", rename="mono_call_generic", ret="r", attrs="#[verifier::loop_isolation(false)]",
-           cut_from=re.compile(r"let generic_func_name = callee\.name\.clone\(\);(?=\s*(?://[^\n]*\s*)*let mut call_subst)"), sig=SIG, cut_before="core::Expr::EToDyn {", cut_tail="",
+           cut_from=re.compile(r"let generic_func_name = callee\.name\.clone\(\);(?!\s*let template\b)"), sig=SIG, cut_before="core::Expr::EToDyn {", cut_tail="",
            obligation="a rewritten call names inst(callee, s) with sig_matches(callee, s, args, call type); args/type unchanged",
            rewrites=[CLONE,
                      (re.compile(r"(let callee_param_tys = \{ let mut __mo\d+)( = Vec::new\(\);)"), r"\1: Vec<&Ty>\2", "*"),
